@@ -145,9 +145,15 @@ func (filter *DummyAudioFilter) handleDummyStage(msg base.RtmpMsg) {
 		filter.onPopProxy(msg)
 		filter.prevAudioTs = ats
 	} else {
+		// 视频时间戳发生跳变（回退，或者向前跳了很多）时，不再逐帧补齐静音音频，直接从当前位置重新开始。
+		// 否则补帧的数量（以及持有group锁的时间）和时间戳的跨度成正比，一个包就可能让流卡住几分钟甚至死循环。
+		if msg.Header.TimestampAbs < filter.prevAudioTs || msg.Header.TimestampAbs-filter.prevAudioTs > dummyAudioMaxCatchUpMs {
+			filter.prevAudioTs = msg.Header.TimestampAbs
+		}
 		for {
 			ats := filter.prevAudioTs + filter.calcAudioDurationMs()
-			if ats > msg.Header.TimestampAbs {
+			if ats > msg.Header.TimestampAbs || ats < filter.prevAudioTs {
+				// 第二个条件是uint32回绕
 				break
 			}
 			amsg := filter.makeOneAudio(ats)
@@ -200,6 +206,9 @@ func (filter *DummyAudioFilter) makeOneAudio(ts uint32) base.RtmpMsg {
 		Payload: []byte{0xaf, 0x01, 0x21, 0x10, 0x04, 0x60, 0x8c, 0x1c},
 	}
 }
+
+// dummyAudioMaxCatchUpMs 视频时间戳间隔超过这个值时，不再补齐这段时间的静音音频
+const dummyAudioMaxCatchUpMs = 5000
 
 func (filter *DummyAudioFilter) calcAudioDurationMs() uint32 {
 	v := filter.audioCount % 3
